@@ -39,6 +39,8 @@ func variantByName(world, name string) (Variant, bool) {
 		return simrunAsmV3, true
 	case asmCPUOff:
 		return simrunAsm, true
+	case simrunAsmRaceBuild.Name:
+		return simrunAsmRaceBuild, true
 	case "asm-go1.26":
 		return simStall, true
 	}
@@ -67,6 +69,9 @@ func Replay(verifDir, path string) (int, error) {
 		av := simrunAsm
 		if rf.Variant == simrunAsmV3.Name+"+purego" {
 			av = simrunAsmV3
+		}
+		if rf.Variant == simrunAsmRaceBuild.Name+"+purego" {
+			av = simrunAsmRaceBuild
 		}
 		binA, err := e.Build(av)
 		if err != nil {
